@@ -618,7 +618,7 @@ func (w *world) observe() []SpanSt {
 			Tr: labels[sc.TraceID()], Hi: hiOf(sc.TraceID()), TidOK: sc.TraceID().IsValid(),
 			SidOK: sc.SpanID().IsValid() && seenSid[sc.SpanID()] == 1, ParOK: s.parOK,
 			Sampled: sc.TraceFlags()&trace.FlagsSampled != 0, Flx: int(sc.TraceFlags() &^ trace.FlagsSampled),
-			Rec:     s.span.IsRecording(), TS: absTS(sc.TraceState(), w.rep),
+			Rec: s.span.IsRecording(), TS: absTS(sc.TraceState(), w.rep),
 			OnStart: len(w.rp.starts[sc.SpanID()]), OnEnd: w.rp.ends[sc.SpanID()],
 		}
 		w.rp.mu.Unlock()
